@@ -164,7 +164,9 @@ def process_urlencoded(entity):
                         params[key].append(value)
                     else:
                         params[key] = value
-        except UnicodeDecodeError:
+        except (LookupError, UnicodeError):
+            # undecodable, or a charset this Python does not provide
+            # (or one that is not a text encoding at all)
             pass
         else:
             entity.charset = charset
@@ -543,7 +545,7 @@ class Entity(object):
         for charset in self.attempt_charsets:
             try:
                 value = value.decode(charset)
-            except UnicodeDecodeError:
+            except (LookupError, UnicodeError):
                 pass
             else:
                 self.charset = charset
